@@ -24,6 +24,22 @@ fn set_distance(a: &[P3], b: &[P3]) -> f64 {
     d1.max(d2)
 }
 
+/// distance between two closed corner sequences as figures: best cyclic shift, either sense; infinite if the counts differ
+fn cyclic_distance(a: &[P3], b: &[P3]) -> f64 {
+    if a.len() != b.len() || a.is_empty() {
+        return f64::INFINITY;
+    }
+    let n = a.len();
+    let mut best = f64::INFINITY;
+    for shift in 0..n {
+        for rev in [false, true] {
+            let d = (0..n).map(|i| dist(&a[i], &b[if rev { (shift + n - i) % n } else { (shift + i) % n }])).fold(0.0, f64::max);
+            best = best.min(d);
+        }
+    }
+    best
+}
+
 fn tol(pts: &[P3]) -> f64 {
     0.01 + 1e-4 * pts.iter().flat_map(|p| p.iter()).fold(0.0f64, |m, c| m.max(c.abs()))
 }
@@ -117,9 +133,10 @@ fn check_spec(ctx: &Ctx, s: &Spec, acc: &mut Acc) -> Option<Model> {
         match m.shades.iter().find(|x| x.name == "Sombra001") {
             Some(sh) => match world_corners(&sh.geometry) {
                 Some(got) => {
-                    let d = set_distance(&exp, &got);
+                    // as a figure: the corners in their order around the outline (any starting corner, either sense)
+                    let d = cyclic_distance(&exp, &got);
                     if d > tol(&exp) {
-                        ctx.violation(&format!("geometry:shade:{}", ["", "rectangle", "vertices-vertical", "vertices-45", "vertices-horizontal", "rectangle-facing-down", "rectangle-facing-up", "rectangle-sloped"][s.shade]), &format!("shade corners off by {:.3} m (expected {:?}, converted {:?})", d, exp, got), case());
+                        ctx.violation(&format!("geometry:shade:{}", ["", "rectangle", "vertices-vertical", "vertices-45", "vertices-horizontal", "rectangle-facing-down", "rectangle-facing-up", "rectangle-sloped", "vertices-twelve-corners"][s.shade]), &format!("shade corners off by {:.3} m (expected {:?}, converted {:?})", d, exp, got), case());
                     }
                 }
                 None => ctx.violation("geometry:shade-no-position", "shade without position", case()),
@@ -401,7 +418,7 @@ pub fn run(ctx: &Ctx) -> i32 {
     ctx.sample(json!({"part": "generated", "spec": format!("{:?}", specs[specs.len() / 2])}));
     ctx.finish(
         "model_checking",
-        "generated buildings over the product outline{rectangle, L, triangle, convex pentagon, U, rectangle with a corner written twice} x storey height x storeys{1,2} x space offset{(0,0),(3,-2) and 1.2 m up} x space azimuth{0,90,30} x global deviation{0,90,180,290,37.5 (3 values in quick)} x window{none, setback 0, 0.2} x shade{none, rectangle vertical / facing down / facing up / sloped, vertices vertical/45/horizontal} (+ one polygon-defined 30-degree roof per combination), printed as BDL into the cubo.ctehexml wrapper and converted by the real parser + converter: every wall/floor/ceiling corner pushed through to_global_coords_matrix must lie within 1 cm (+1e-4 |coord|) of the corner computed from the BDL conventions, outward normals, areas, window x/y/w/h/setback, shade corners; the overhang / fin shades of a window defined alone and together (each must not depend on the others); rotation covariance for every 5th building and every real project with theta in {15, 90, 123.4, 270, -30} (the turned deviation is written as it comes: above 360 or below 0) (+ one VERIF_SEED-derived angle, labelled sampling): positions turn clockwise by theta, azimuths shift by -theta, areas/volumes/K/n50 unchanged; SPACE-Vn walls of the real projects against the same reference (calibration: max distance reported for spaces without rotation); non-trivial = walls compared",
+        "generated buildings over the product outline{rectangle, L, triangle, convex pentagon, U, rectangle with a corner written twice} x storey height x storeys{1,2} x space offset{(0,0),(3,-2) and 1.2 m up} x space azimuth{0,90,30} x global deviation{0,90,180,290,37.5 (3 values in quick)} x window{none, setback 0, 0.2} x shade{none, rectangle vertical / facing down / facing up / sloped, vertices vertical/45/horizontal, a sloped cross with twelve corners} (shade corners compared in their order around the outline) (+ one polygon-defined 30-degree roof per combination), printed as BDL into the cubo.ctehexml wrapper and converted by the real parser + converter: every wall/floor/ceiling corner pushed through to_global_coords_matrix must lie within 1 cm (+1e-4 |coord|) of the corner computed from the BDL conventions, outward normals, areas, window x/y/w/h/setback, shade corners; the overhang / fin shades of a window defined alone and together (each must not depend on the others); rotation covariance for every 5th building and every real project with theta in {15, 90, 123.4, 270, -30} (the turned deviation is written as it comes: above 360 or below 0) (+ one VERIF_SEED-derived angle, labelled sampling): positions turn clockwise by theta, azimuths shift by -theta, areas/volumes/K/n50 unchanged; SPACE-Vn walls of the real projects against the same reference (calibration: max distance reported for spaces without rotation); non-trivial = walls compared",
         true,
         json!({}),
     )
